@@ -317,8 +317,9 @@ pub fn gen_f64(rng: &mut Rng, lo: f64, hi: f64) -> f64 {
         // f32-grid values widened to f64 (their shortest decimal differs between the two widths)
         10 => *rng.pick(F32_SPECIALS) as f64,
         0 | 1 => *rng.pick(F64_SPECIALS),
-        2 => lo,
-        3 => hi,
+        // a zero bound is met by both zeros: -0.0 compares equal to it but is spelled with a sign
+        2 => if lo == 0.0 && rng.chance(1, 2) { -lo } else { lo },
+        3 => if hi == 0.0 && rng.chance(1, 2) { -hi } else { hi },
         4 => f64::from_bits(lo.to_bits().wrapping_add(1)),
         5 => f64::from_bits(hi.to_bits().wrapping_add(1)),
         6 => f64::from_bits(lo.to_bits().wrapping_sub(1)),
@@ -353,8 +354,9 @@ pub fn gen_f32(rng: &mut Rng, lo: f32, hi: f32) -> f32 {
     match rng.below(11) {
         10 => *rng.pick(F32_SPECIALS),
         0 | 1 => *rng.pick(F64_SPECIALS) as f32,
-        2 => lo,
-        3 => hi,
+        // a zero bound is met by both zeros: -0.0 compares equal to it but is spelled with a sign
+        2 => if lo == 0.0 && rng.chance(1, 2) { -lo } else { lo },
+        3 => if hi == 0.0 && rng.chance(1, 2) { -hi } else { hi },
         4 => f32::from_bits(lo.to_bits().wrapping_add(1)),
         5 => f32::from_bits(hi.to_bits().wrapping_add(1)),
         6 => f32::from_bits(lo.to_bits().wrapping_sub(1)),
